@@ -119,6 +119,19 @@ pub fn run_c13(cfg: &RunCfg, trace: bool) -> RunOut {
                 ab.ctl.sticky.store(plan.sticky, Ordering::SeqCst);
             }
             for (idx, op) in cfg.ops.iter().enumerate() {
+                if let Op::EnvSpecial(_, k) = op {
+                    if k % 4 == 3 {
+                        // the physical root directories of the async stack disappear
+                        if let Some(b) = &ab.base {
+                            if let Ok(rd) = std::fs::read_dir(b) {
+                                for e in rd.flatten() {
+                                    let _ = std::fs::remove_dir_all(e.path().join("root"));
+                                }
+                            }
+                            cx.out.count("probe.c13.async_physical_root_removed");
+                        }
+                    }
+                }
                 let mut st = PollStats::default();
                 let r = ax.exec(op, &mut st);
                 cx.out.steps += 1;
